@@ -527,6 +527,17 @@ pub mod debug {
             self.0.set_bits(idx..=idx + 1, size as usize);
         }
 
+        /// Reset the condition and the size of a breakpoint to zero (the state of an unused slot).
+        ///
+        /// # Arguments
+        ///
+        /// * `dr`: address debug register number
+        #[inline(always)]
+        pub fn clear_bp(&mut self, dr: DebugRegisterNumber) {
+            let idx = 16 + (dr as usize * 4);
+            self.0.set_bits(idx..=idx + 3, 0);
+        }
+
         /// Enable/disable a breakpoint either as global or local.
         ///
         /// # Arguments
